@@ -1,5 +1,6 @@
 import OpcuaModel.Model.Chunk
 import OpcuaModel.Model.CryptoKeys
+import OpcuaModel.Model.CbcList
 import OpcuaModel.Gen.KeyAssign
 import OpcuaModel.Gen.Policies
 import OpcuaModel.Gen.MaxBody
@@ -33,22 +34,43 @@ def unhexFast (s : String) : Option Bytes :=
 
 def sha256Hex (b : Bytes) : String := toHex (toBytes (sha256 (ofBytes b)))
 
-/-- `AES.Encrypt` / `AES.Decrypt` of uapolicy/crypto_aes.go with the reference
-    cipher: Encrypt pads or cuts the secret to `KeyLength/8` bytes
-    (`copy(paddedKey, a.Secret)`), Decrypt uses the secret as it is
-    (`aes.NewCipher(a.Secret)` fails unless it has 16, 24 or 32 bytes; the
-    reference cipher supports 16 and 32) -/
+/-- the reference AES block encryption / decryption under `key` (FIPS 197,
+    `Model/CryptoRef.lean`); the key schedule is computed once -/
+def aesE (key : Bytes) : Bytes → Bytes :=
+  let rk := aesKeyExpand (ofBytes key)
+  let nr := aesRounds rk
+  fun b => toBytes (aesEncryptBlock rk nr (ofBytes b))
+
+def aesD (key : Bytes) : Bytes → Bytes :=
+  let rk := aesKeyExpand (ofBytes key)
+  let nr := aesRounds rk
+  fun b => toBytes (aesDecryptBlock rk nr (ofBytes b))
+
+/-- `AES.Encrypt` / `AES.Decrypt` of uapolicy/crypto_aes.go: the proved CBC mode of
+    `Model/CbcList.lean` over the reference AES block functions.  Encrypt pads or
+    cuts the secret to `KeyLength/8` bytes (`copy(paddedKey, a.Secret)`), Decrypt
+    uses the secret as it is (`aes.NewCipher(a.Secret)` fails unless it has 16, 24
+    or 32 bytes; the reference cipher supports 16 and 32) -/
 def aesEncrypt (bits : Nat) (key iv p : Bytes) : Option Bytes :=
   if p.length % 16 ≠ 0 then none else
   let k := (key ++ List.replicate (bits / 8) 0).take (bits / 8)
   if (k.length ≠ 16 ∧ k.length ≠ 32) ∨ iv.length ≠ 16 then none
-  else some (cbcEncrypt k iv p)
+  else some (Cbc.cbcEnc (aesE k) iv p)
 
 def aesDecrypt (key iv c : Bytes) : Option Bytes :=
   if (key.length ≠ 16 ∧ key.length ≠ 32) ∨ iv.length ≠ 16 then none else
   if c.length < 16 then none else
   if c.length % 16 ≠ 0 then none
-  else some (cbcDecrypt key iv c)
+  else some (Cbc.cbcDec (aesD key) iv c)
+
+/-- cross-check of the two CBC implementations (list / byte array) on a fixed input -/
+def cbcCrossCheck : Bool :=
+  let key : Bytes := (List.range 32).map UInt8.ofNat
+  let iv : Bytes := (List.range 16).map (fun i => UInt8.ofNat (7 * i + 1))
+  let pt : Bytes := (List.range 80).map (fun i => UInt8.ofNat (13 * i + 5))
+  Cbc.cbcEnc (aesE key) iv pt == cbcEncrypt key iv pt &&
+  Cbc.cbcDec (aesD key) iv (cbcEncrypt key iv pt) == pt &&
+  Cbc.cbcEnc (aesE (key.take 16)) iv pt == cbcEncrypt (key.take 16) iv pt
 
 /-- `uapolicy.None` -/
 def noneCrypto : Crypto :=
